@@ -8,10 +8,11 @@ intro = {
  'r6': "**Sixth round (64 changes for 16 properties; no file focus, emphasis on overlooked mechanisms: interactions between calls, caller-owned data, argument states, error paths, thresholds and ties, rarely taken size branches, less used build configurations).**",
  'r7': "**Seventh round (3 per property, all 20; two cooperating conditions or multi-step histories requested).**",
  'r8': "**Eighth round (3 each for the eight properties with the most recent misses).**",
+ 'r9': "**Ninth round (3 each for the twelve properties not in round 8).**",
  'r5': "**Fifth round (48 changes for 12 properties; focus on remaining files, and on interactions between calls, caller-owned data, unusual argument states, error paths).**",
 }
 out = []
-for rnd in ('r3', 'r4', 'r5', 'r6', 'r7', 'r8'):
+for rnd in ('r3', 'r4', 'r5', 'r6', 'r7', 'r8', 'r9'):
     total = miss = 0
     rows = []
     for d in sorted(glob.glob(f'/verif/seeded/*-{rnd}-*/')):
